@@ -1,15 +1,25 @@
 #!/bin/bash
 # tools/seed_eval.sh <out-dir-of-agent e.g. /tmp/wt/out/C01/a> <seed-id e.g. C01a> <property>
 # 1. confirms in a scratch worktree: patch applies, repo tests pass with it, demo fails with it and passes without
-# 2. runs every quick check against the mutant applied to /repo (working tree only, undone afterwards)
+# 2. runs every quick check against the mutant applied to a scratch clone of /repo (snapshot of /verif built against it)
 # 3. files it under /verif/seeded/<seed-id>/
 set -u
 SRC="$1"; SID="$2"; PROP="$3"
-VER=/tmp/wt/verify
+# isolated snapshot (own clone of /repo at HEAD, own copy of the committed-or-not /verif) so that
+# evaluation never touches /repo's working tree: SE_ROOT/{repo,verif}; refresh with SE_REFRESH=1
+SE_ROOT="${SE_ROOT:-/tmp/se}"
+if [ "${SE_REFRESH:-0}" = 1 ] || [ ! -d "$SE_ROOT/repo" ]; then
+  rm -rf "$SE_ROOT"; mkdir -p "$SE_ROOT"
+  git clone -q /repo "$SE_ROOT/repo" || exit 2
+  rsync -a --exclude target --exclude replays --exclude corpus-run /verif/ "$SE_ROOT/verif/"
+  sed -i "s#path = \"/repo\"#path = \"$SE_ROOT/repo\"#" "$SE_ROOT/verif/harness/Cargo.toml"
+  (cd "$SE_ROOT/verif/harness" && cargo build --release --offline >/dev/null 2>&1) || { echo "snapshot build failed"; exit 2; }
+fi
+VER="$SE_ROOT/verify"
+if [ ! -d "$VER" ]; then git clone -q /repo "$VER" || exit 2; fi
 DEST=/verif/seeded/$SID
 [ -f "$SRC/patch.diff" ] && [ -f "$SRC/demo.rs" ] || { echo "$SID: missing patch/demo"; exit 2; }
-if [ ! -d $VER ]; then git -C /repo worktree add --detach $VER HEAD -q || exit 2; fi
-git -C $VER checkout -q --detach "$(git -C /repo rev-parse HEAD)" 2>/dev/null; git -C $VER checkout -- . ; rm -f $VER/tests/demo.rs
+git -C $VER checkout -- . ; rm -f $VER/tests/demo.rs
 cd $VER
 if ! git apply "$SRC/patch.diff" 2>/dev/null; then echo "$SID: patch does not apply"; exit 2; fi
 T1=$(cargo test --offline 2>&1 | grep -E "^test result" | awk '{p+=$4; f+=$6} END {print p"/"f}')
@@ -26,19 +36,19 @@ case "$D2" in */0) ;; *) ok=0;; esac
 [ -z "$D1" ] && ok=0
 if [ $ok = 0 ]; then echo "$SID: NOT CONFIRMED"; exit 3; fi
 # run the checks
-cd /repo && [ -z "$(git status --porcelain)" ] || { echo "/repo not clean"; exit 2; }
+cd "$SE_ROOT/repo" && [ -z "$(git status --porcelain)" ] || { echo "snapshot repo not clean"; exit 2; }
 git apply "$SRC/patch.diff" || exit 2
 caught=""
 results="{"
 for i in 01 02 03 04 05 06 07 08 09 10 11 12 13 14 15 16 17 18 19 20; do
-  out=$(cd /verif && VERIF_ROOT=/tmp/seed_eval_root ./check_mut C$i quick 2>&1); rc=$?
+  out=$(cd "$SE_ROOT/verif" && VERIF_ROOT="$SE_ROOT/root" ./check_mut C$i quick 2>&1); rc=$?
   sig=$(echo "$out" | grep -m1 "failure in part" | sed 's/.*failure in part //' | cut -c1-200 | tr '"' "'" | tr -d '\\')
   [ $rc = 1 ] && caught="$caught C$i"
   results="$results\"C$i\": {\"exit\": $rc, \"first_failure\": \"$sig\"},"
 done
 results="${results%,}}"
 git checkout -- .
-rm -rf /tmp/seed_eval_root
+rm -rf "$SE_ROOT/root"
 mkdir -p $DEST
 cp "$SRC/patch.diff" "$SRC/demo.rs" $DEST/
 [ -f "$SRC/notes.md" ] && cp "$SRC/notes.md" $DEST/notes.md
@@ -55,7 +65,7 @@ json.dump({
   "source": "written by an independent sub-agent that was given only the text of the property and a scratch worktree of /repo (nothing from /verif)",
   "needs_to_manifest": "see notes.md (the sub-agent's description of the inputs / call sequence required)",
   "confirmed": {"repo_test_suite_with_mutant_pass/fail": t1, "demo_with_mutant_pass/fail": d1, "demo_without_mutant_pass/fail": d2,
-                "how": "tools/seed_eval.sh: scratch worktree /tmp/wt/verify at /repo HEAD; git apply patch.diff; cargo test --offline; cp demo.rs tests/; cargo test --offline --test demo; git checkout -- src; cargo test --offline --test demo"},
+                "how": "tools/seed_eval.sh: scratch clone of /repo at HEAD outside /repo and /verif; git apply patch.diff; cargo test --offline; cp demo.rs tests/; cargo test --offline --test demo; git checkout -- src; cargo test --offline --test demo"},
   "quick_checks_against_mutant": json.loads(results),
   "caught_by": caught.split(),
 }, open(path, "w"), indent=1)
